@@ -1069,12 +1069,37 @@ func (w *World) addressable(v ssa.Value, at ssa.Instruction, depth int, seen map
 			}
 		}
 	case *ssa.Phi:
-		for _, e := range x.Edges {
+		n := 0
+		for ei, e := range x.Edges {
+			// the join of a folded (Value, error) helper: the zero Value arrives on the edges where the error joined
+			// beside it is non-nil by construction, and Addr is called where that error is known to be nil
+			if at != nil && phiEdgeRuledOutByNilSibling(x, ei, at.Block()) {
+				continue
+			}
+			n++
 			if !w.addressable(e, nil, depth+1, seen) {
 				return false
 			}
 		}
-		return len(x.Edges) > 0
+		return n > 0
+	}
+	return false
+}
+
+// phiEdgeRuledOutByNilSibling: a phi of the same block as ph (the error joined beside a value) is known to be nil at
+// block b, and on edge ei that phi is non-nil by construction: edge ei was not the one taken.
+func phiEdgeRuledOutByNilSibling(ph *ssa.Phi, ei int, b *ssa.BasicBlock) bool {
+	for _, i := range ph.Block().Instrs {
+		sib, ok := i.(*ssa.Phi)
+		if !ok {
+			break
+		}
+		if sib == ph || ei >= len(sib.Edges) {
+			continue
+		}
+		if nonNilByConstruction(sib.Edges[ei]) && knownNil(b, sib, true) {
+			return true
+		}
 	}
 	return false
 }
